@@ -198,6 +198,14 @@ def main():
                     if np.abs(Pf[k] @ vec(e) - vec(Qs[k] @ e @ Qs[k].T)).max() > 1e-9:
                         res.fail("Get_Pmat dim=3 tensor-rotation", "P vec(eps) != vec(Q eps Q^T)", ident3)
                         break
+                if dim == 2:
+                    # axes given with two components (the 2D branch of Get_Pmat); also for a reflected frame
+                    e2 = np.array([[q(rng, -1, 1) for _ in range(2)] for _ in range(2)])
+                    e2 = (e2 + e2.T) / 2
+                    vec2 = lambda t: np.array([t[0, 0], t[1, 1], np.sqrt(2) * t[0, 1]])  # noqa: E731
+                    if np.abs(Pf[k] @ vec2(e2) - vec2(Qs[k] @ e2 @ Qs[k].T)).max() > 1e-9:
+                        res.fail("Get_Pmat dim=2 tensor-rotation", "P vec(eps) != vec(Q eps Q^T) for axes given with two components", ident3)
+                        break
         # Voigt vs Kelvin-Mandel input for the anisotropic law
         for dim in (2, 3):
             base = law_3d("ortho", draw(rng, "ortho"), dim=dim, ps=False).C
@@ -304,4 +312,6 @@ def main():
 
 
 if __name__ == "__main__":
-    main()
+    from tools.harness._common import run
+
+    run(main)
